@@ -100,12 +100,15 @@ def _gen_collection(rnd, reparse_safe, with_seq, chunk):
             par = Parent(id="chr1", sequence=Sequence(R, Alphabet.NT_EXTENDED_GAPPED, id="chr1", type=SequenceType.CHROMOSOME))
     T = lambda: _text(rnd, allow_comma_quote=not reparse_safe)  # noqa: E731
 
-    def quals():
+    def quals(share=None):
         q = {}
         for _ in range(rnd.randrange(0, 3)):
             k = rnd.choice(["note", "Note2", "db xref", "k;ey", "função", "e=q"]) if not reparse_safe else \
                 rnd.choice(["note", "note2", "db_xref", "funcao"])
             q[k] = [T() for _ in range(rnd.randrange(1, 3))]
+        if share and rnd.random() < 0.6:
+            # a child that has a qualifier key of its parent's with values of its own
+            q[rnd.choice(sorted(share))] = [T() for _ in range(rnd.randrange(1, 3))]
         return q
 
     model, genes, fcs = [], [], []
@@ -132,6 +135,7 @@ def _gen_collection(rnd, reparse_safe, with_seq, chunk):
             model.append(["fc", blocks[0][0], blocks[-1][1], [[blocks, st]]])
         else:
             txs, tmodel = [], []
+            gquals = quals()
             gtype = rnd.choice([Biotype.protein_coding, Biotype.lncRNA])
             for ti in range(rnd.randrange(1, 3)):
                 tb = blocks if ti == 0 else blocks[:max(1, len(blocks) - 1)]
@@ -148,10 +152,10 @@ def _gen_collection(rnd, reparse_safe, with_seq, chunk):
                 txs.append(mk_tx(tb, st, cds, None, frames=frames, parent=par, transcript_id="tx%d_%d" % (gi, ti),
                                  transcript_symbol=T(), transcript_type=ttype, sequence_name="chr1",
                                  protein_id=("prot%d_%d" % (gi, ti)) if coding else None, product=T() if coding else None,
-                                 qualifiers=quals()))
+                                 qualifiers=quals(gquals)))
                 tmodel.append([tb, st, cds or [], frames or []])
             genes.append(GeneInterval(txs, gene_id="gene%d" % gi, gene_symbol=T(), gene_type=gtype, locus_tag="lt%d" % gi,
-                                      sequence_name="chr1", qualifiers=quals(), parent_or_seq_chunk_parent=par))
+                                      sequence_name="chr1", qualifiers=gquals, parent_or_seq_chunk_parent=par))
             model.append(["gene", min(t[0][0][0] for t in tmodel), max(t[0][-1][1] for t in tmodel), tmodel])
         pos = blocks[-1][1] + rnd.randrange(0, 8)
     if not genes and not fcs:
@@ -170,6 +174,18 @@ def _lower_expected(q):
             v = str(v)
             s.update(v.split(",") if v != "" else ["nan"])
     return [[k, sorted(v)] for k, v in sorted(out.items()) if v]
+
+
+def _proj_quals(coll):
+    """every qualifier value of every gene / transcript, keyed by object and key (before / after comparisons)"""
+    out = []
+    for gi, g in enumerate(coll.genes):
+        for k, v in _lower_expected(g.qualifiers):
+            out.append(["g%d:%s" % (gi, k), v])
+        for ti, t in enumerate(g.transcripts):
+            for k, v in _lower_expected(t.qualifiers):
+                out.append(["g%d.t%d:%s" % (gi, ti, k), v])
+    return out
 
 
 def _proj(coll):
@@ -208,6 +224,14 @@ def _events(args):
         chunk_mode = chunk and rnd.random() < 0.5
         add_seq = with_seq and (chunk_mode or not chunk) and rnd.random() < 0.6
         buf = io.StringIO()
+        # what the rows must decode to is fixed BEFORE the export runs (an export that alters the qualifiers it reads
+        # must not be able to alter the expectation with them)
+        want_attrs = {}
+        for g in coll.genes:
+            want_attrs[str(g.guid)] = _lower_expected(g.export_qualifiers())
+            for t in g.transcripts:
+                want_attrs[str(t.guid)] = _lower_expected(t.export_qualifiers(g.export_qualifiers()))
+        src_before = _proj_quals(coll)
         try:
             collection_to_gff3([coll], buf, add_sequences=add_seq, chromosome_relative_coordinates=not chunk_mode)
         except Exception as ex:
@@ -223,11 +247,13 @@ def _events(args):
         for g in coll.genes:
             r = byid.get(str(g.guid))
             if r:
-                ev.append(["attrs", "gene", _lower_expected(g.export_qualifiers()), r[9]])
+                ev.append(["attrs", "gene", want_attrs[str(g.guid)], r[9]])
             for t in g.transcripts:
                 r = byid.get(str(t.guid))
                 if r:
-                    ev.append(["attrs", "transcript", _lower_expected(t.export_qualifiers(g.export_qualifiers())), r[9]])
+                    ev.append(["attrs", "transcript", want_attrs[str(t.guid)], r[9]])
+        # exporting is a read: the collection's own qualifiers are what they were
+        ev.append(["attrs", "source-unchanged-by-export", src_before, [[kv[0], kv[1]] for kv in _proj_quals(coll)]])
         # export -> parse -> export (comma / double quote excluded, chromosome coordinates)
         if reparse_safe and not chunk_mode:
             path = os.path.join(tmpdir, "f_%d_%d.gff3" % (seed, i))
